@@ -1,2 +1,958 @@
-"""own rules."""
-RULES = {}
+"""OWN - ownership and effects (DESIGN 4.4).
+
+Alias classes of the object a mutation targets (container level):
+  ("owned",)            created in this function (constructor, literal, comprehension, copy, deepcopy, fresh call result)
+  ("param", name)       a parameter (incl. 'self' of helper classes): obligation moves to the callers
+  ("shared", what)      state of a DAG instance (self.<field> in the DAG classes, self.dag.<x> in executors)
+  ("execfield", name)   a field of an executor object (documented single-use, not shared)
+  ("global", q)         module-level object
+  ("elem", cls)         element of a container of class cls
+  ("unknown", why)
+"""
+from __future__ import annotations
+
+import ast
+from typing import Dict, List, Optional, Set, Tuple
+
+from ..ctx import Ctx, arg_for_param, dotted, names_in
+from ..loader import FuncInfo, iter_own_nodes, own_walk
+from ..report import RuleResult, Undecided, norm_src
+from .ref import _if_chains, control_funcs, pkg_funcs
+
+MUTATORS = {
+    "append", "extend", "insert", "remove", "pop", "clear", "sort", "reverse", "update", "popitem", "setdefault", "force_set",
+    "__setitem__", "__delitem__", "add", "discard", "difference_update", "intersection_update", "symmetric_difference_update",
+    "remove_node", "remove_nodes_from", "remove_root_node", "remove_any_root_node", "remove_recursively", "add_node",
+    "add_nodes_from", "add_edge", "add_edges_from", "remove_edge", "remove_edges_from", "add_exec_node",
+}
+FRESH_CALLS = {"copy", "deepcopy", "dict", "list", "set", "tuple", "sorted", "frozenset", "StrictDict", "BiDict", "defaultdict",
+               "str", "int", "bool", "len", "max", "min", "sum", "iter", "reversed", "zip", "enumerate", "chain", "isinstance",
+               "getattr", "type", "repr", "Counter", "Path", "open"}
+FRESH_METHODS = {"copy", "union", "difference", "intersection", "symmetric_difference", "items", "values", "keys", "split",
+                 "join", "format", "subgraph", "successors", "predecessors", "nodes", "edges"}
+
+DAG_CLASSES = ("BaseDAG", "DAG", "AsyncDAG")
+EXEC_CLASSES = ("BaseDAGExecution", "DAGExecution", "AsyncDAGExecution")
+
+
+class Own:
+    def __init__(self, ctx: Ctx):
+        self.ctx = ctx
+        self.dag_qs = {ctx.cls_q(c) for c in DAG_CLASSES}
+        self.exec_qs = {ctx.cls_q(c) for c in EXEC_CLASSES}
+        self._mp: Dict[str, Dict[str, List[dict]]] = {}
+        self._ret: Dict[str, tuple] = {}
+        self._stack: List[str] = []
+        self._inprog: Set[tuple] = set()
+        self._name_memo: Dict[tuple, tuple] = {}
+        self._ret_pos: Dict[str, Optional[List[tuple]]] = {}
+        from ..splice import SpliceInterp
+
+        try:
+            sp = ctx.memo("splice_interp", lambda: SpliceInterp(ctx))
+            self.splice_nodes = {id(x) for x in ast.walk(sp.block)}
+        except Undecided:
+            self.splice_nodes = set()
+
+    # ------------------------------------------------------------------ run-reachable functions
+    def entries(self) -> List[FuncInfo]:
+        out = []
+        for cn in DAG_CLASSES[1:]:
+            for m in ("__call__", "setup", "run_subgraph"):
+                f = self.ctx.own_method(cn, m)
+                if f is None:
+                    raise Undecided(f"run entry point {cn}.{m} not found")
+                out.append(f)
+        for cn in EXEC_CLASSES[1:]:
+            for m in ("__call__", "setup"):
+                f = self.ctx.own_method(cn, m)
+                if f is None:
+                    raise Undecided(f"run entry point {cn}.{m} not found")
+                out.append(f)
+        return out
+
+    def callees(self, f: FuncInfo) -> List[Tuple[ast.Call, str, dict]]:
+        """(call, callee qualname, info) including bound methods passed as arguments and property reads."""
+        out = []
+        ctx = self.ctx
+        for n in iter_own_nodes(f.node):
+            if id(n) in self.splice_nodes:
+                continue
+            if isinstance(n, ast.Call):
+                q = ctx.T.resolve_callee(f, n, ctx.env_at(f, n))
+                if q in ctx.P.funcs:
+                    out.append((n, q, {"kind": "call"}))
+                elif q in ctx.P.classes:
+                    c = ctx.P.classes[q]
+                    for mn in ("__init__", "__post_init__"):
+                        m = ctx.P.find_method(c, mn)
+                        if m is not None:
+                            out.append((n, m.qualname, {"kind": "ctor"}))
+                for a in list(n.args) + [k.value for k in n.keywords]:
+                    if isinstance(a, ast.Attribute):
+                        t = ctx.type_of(f, a)
+                        if t[0] == "method" and t[1] in ctx.P.funcs:
+                            out.append((n, t[1], {"kind": "bound", "ref": a}))
+            elif isinstance(n, ast.Attribute) and isinstance(n.ctx, ast.Load):
+                bt = ctx.type_of(f, n.value)
+                if bt[0] == "cls" and bt[1] in ctx.P.classes:
+                    m = ctx.P.find_method(ctx.P.classes[bt[1]], n.attr)
+                    if m is not None and "property" in m.decorators():
+                        out.append((n, m.qualname, {"kind": "property"}))
+            elif isinstance(n, (ast.With, ast.AsyncWith)):
+                for it in n.items:
+                    t = ctx.type_of(f, it.context_expr)
+                    cq = t[1] if t[0] == "cls" else None
+                    if cq in ctx.P.classes:
+                        for mn in ("__enter__", "__exit__"):
+                            m = ctx.P.find_method(ctx.P.classes[cq], mn)
+                            if m is not None:
+                                out.append((n, m.qualname, {"kind": "with", "recv": it.context_expr}))
+        return out
+
+    def reachable(self) -> List[FuncInfo]:
+        def build():
+            seen: Dict[str, FuncInfo] = {}
+            st = list(self.entries())
+            while st:
+                f = st.pop()
+                if f.qualname in seen:
+                    continue
+                seen[f.qualname] = f
+                for _, q, _ in self.callees(f):
+                    if q not in seen:
+                        st.append(self.ctx.P.funcs[q])
+                for g in self.ctx.P.funcs.values():
+                    if g.parent is f and g.qualname not in seen:
+                        st.append(g)
+            return list(seen.values())
+        return self.ctx.memo("own_reachable", build)
+
+    # ------------------------------------------------------------------ classification
+    def params(self, f: FuncInfo) -> List[str]:
+        a = f.node.args
+        out = [p.arg for p in a.posonlyargs + a.args + a.kwonlyargs]
+        if a.vararg:
+            out.append(a.vararg.arg)
+        if a.kwarg:
+            out.append(a.kwarg.arg)
+        return out
+
+    def classify(self, f: FuncInfo, e: ast.AST, at: ast.AST, depth: int = 0) -> tuple:
+        ctx = self.ctx
+        if depth > 40:
+            return ("unknown", "depth")
+        if isinstance(e, (ast.List, ast.Dict, ast.Set, ast.Tuple, ast.ListComp, ast.SetComp, ast.DictComp, ast.GeneratorExp,
+                          ast.Constant, ast.JoinedStr, ast.BinOp, ast.Compare, ast.BoolOp, ast.Lambda)):
+            if isinstance(e, ast.BoolOp):
+                cs = [self.classify(f, v, at, depth + 1) for v in e.values]
+                return self._join(cs)
+            return ("owned",)
+        if isinstance(e, ast.Await):
+            return self.classify(f, e.value, at, depth + 1)
+        if isinstance(e, ast.IfExp):
+            return self._join([self.classify(f, e.body, at, depth + 1), self.classify(f, e.orelse, at, depth + 1)])
+        if isinstance(e, ast.Starred):
+            return self.classify(f, e.value, at, depth + 1)
+        if isinstance(e, ast.Name):
+            return self.classify_name(f, e.id, at, depth)
+        if isinstance(e, ast.Attribute):
+            d = dotted(e) or ""
+            bt = ctx.type_of(f, e.value)
+            if bt[0] == "module":
+                return ("global", f"{bt[1]}.{e.attr}")
+            if bt[0] == "cls" and bt[1] in ctx.P.classes:
+                m = ctx.P.find_method(ctx.P.classes[bt[1]], e.attr)
+                if m is not None and "property" in m.decorators():
+                    rc = self.ret_class(m)
+                    if rc[0] == "param" and rc[1] == "self":
+                        return self.classify(f, e.value, at, depth + 1)
+                    if rc[0] == "selffield":
+                        return self._field_class(f, e.value, rc[1], at, depth)
+                    return rc
+                return self._field_class(f, e.value, e.attr, at, depth)
+            base = self.classify(f, e.value, at, depth + 1)
+            if base[0] in ("owned",):
+                return ("owned",)
+            return ("elem", base)
+        if isinstance(e, ast.Subscript):
+            base = self.classify(f, e.value, at, depth + 1)
+            return ("elem", base)
+        if isinstance(e, ast.Call):
+            fn = e.func
+            d = dotted(fn) or ""
+            last = d.split(".")[-1]
+            q = ctx.T.resolve_callee(f, e, ctx.env_at(f, e))
+            if q in ctx.P.classes:
+                return ("owned",)
+            if q in ctx.P.funcs:
+                callee = ctx.P.funcs[q]
+                rc = self.ret_class(callee)
+                if rc[0] == "param":
+                    if rc[1] == self.params(callee)[0] and callee.cls is not None and isinstance(fn, ast.Attribute):
+                        return self.classify(f, fn.value, at, depth + 1)
+                    a = arg_for_param(callee.node, e, rc[1], skip_self=callee.cls is not None and isinstance(fn, ast.Attribute))
+                    if a is not None:
+                        return self.classify(f, a, at, depth + 1)
+                    return ("unknown", f"argument for {rc[1]} of {callee.short}")
+                if rc[0] == "selffield" and isinstance(fn, ast.Attribute):
+                    return self._field_class(f, fn.value, rc[1], at, depth)
+                return rc
+            if isinstance(fn, ast.Name) and last in FRESH_CALLS:
+                return ("owned",)
+            if isinstance(fn, ast.Attribute) and fn.attr in FRESH_METHODS:
+                return ("owned",)
+            if isinstance(fn, ast.Attribute) and fn.attr in ("get", "pop", "__getitem__", "setdefault"):
+                return ("elem", self.classify(f, fn.value, at, depth + 1))
+            if q is not None and q.startswith("ext:"):
+                return ("owned",)  # external constructors / functions return objects the package does not share
+            if isinstance(fn, ast.Call):  # type(x)(**values)
+                return ("owned",)
+            if q is not None and q.startswith("bm:"):
+                return ("owned",)
+            return ("unknown", "call " + norm_src(fn))
+        return ("unknown", type(e).__name__)
+
+    def _field_class(self, f: FuncInfo, recv: ast.AST, attr: str, at: ast.AST, depth: int) -> tuple:
+        ctx = self.ctx
+        bt = ctx.type_of(f, recv)
+        rc = self.classify(f, recv, at, depth + 1)
+        if bt[0] == "cls":
+            if any(ctx.P.is_subclass(bt[1], q) or bt[1] == q for q in self.dag_qs):
+                if rc[0] == "owned":
+                    return ("owned",)
+                return ("shared", f"DAG.{attr}")
+            if any(ctx.P.is_subclass(bt[1], q) or bt[1] == q for q in self.exec_qs):
+                if attr == "dag":
+                    return ("shared", "DAG")
+                if rc[0] == "owned":
+                    return ("owned",)
+                return ("execfield", attr)
+        if rc[0] == "owned":
+            return ("owned",)
+        if rc[0] == "param":
+            return ("param", rc[1])
+        if rc[0] in ("shared", "global", "execfield"):
+            return rc
+        return ("elem", rc)
+
+    def classify_name(self, f: FuncInfo, name: str, at: ast.AST, depth: int) -> tuple:
+        key = (f.qualname, name, ctx_stmt_id(self.ctx, f, at))
+        if key in self._name_memo:
+            return self._name_memo[key]
+        if key in self._inprog:
+            return ("same",)
+        self._inprog.add(key)
+        try:
+            res = self._classify_name(f, name, at, depth)
+        finally:
+            self._inprog.discard(key)
+        if not self._inprog:
+            self._name_memo[key] = res
+        return res
+
+    def _classify_name(self, f: FuncInfo, name: str, at: ast.AST, depth: int) -> tuple:
+        ctx = self.ctx
+        defs = ctx.reaching_defs(f, name, at)
+        chain = ctx.P.enclosing_chain(f)
+        is_param = name in self.params(f)
+        if not defs:
+            if is_param and f.cls is not None and self.params(f)[0] == name and "staticmethod" not in f.decorators():
+                cq = f.cls.qualname
+                if any(ctx.P.is_subclass(cq, q) or cq == q for q in self.dag_qs):
+                    return ("shared", "DAG instance")
+                if any(ctx.P.is_subclass(cq, q) or cq == q for q in self.exec_qs):
+                    return ("execfield", "self")
+            if is_param:
+                return ("param", name)
+            # closure variable of an enclosing function, or a module-level name
+            for g in chain[1:]:
+                if name in self.params(g):
+                    return ("param", name)
+                binds = [n for n in iter_own_nodes(g.node) if isinstance(n, (ast.Assign, ast.AnnAssign)) and any(
+                    ctx._binds(t, name) for t in (n.targets if isinstance(n, ast.Assign) else [n.target]))]
+                if binds:
+                    cs = [self.classify(g, b.value, b, depth + 1) for b in binds if b.value is not None]
+                    return self._join(cs) if cs else ("unknown", "closure")
+            q = ctx.P.resolve_name(f.module, name)
+            if q and "." in q and q.rsplit(".", 1)[0] in ctx.P.modules and q not in ctx.P.funcs and q not in ctx.P.classes:
+                return ("global", q)
+            # a local bound only by a for/with/comprehension before this point
+            return ("unknown", f"no reaching definition of {name}")
+        cs = []
+        for d in defs:
+            if isinstance(d, ast.Assign):
+                if len(d.targets) == 1 and isinstance(d.targets[0], ast.Name):
+                    cs.append(self.classify(f, d.value, d, depth + 1))
+                else:
+                    # tuple unpacking: position-wise when the value is a call of a package function returning a tuple
+                    pos = None
+                    tg = d.targets[0]
+                    if isinstance(tg, (ast.Tuple, ast.List)):
+                        for i, t in enumerate(tg.elts):
+                            if isinstance(t, ast.Name) and t.id == name:
+                                pos = i
+                    v = self.classify_call_position(f, d.value, pos, d, depth + 1) if pos is not None else None
+                    if v is None:
+                        v = self.classify(f, d.value, d, depth + 1)
+                        v = ("owned",) if v[0] == "owned" else ("elem", v)
+                    cs.append(v)
+            elif isinstance(d, ast.AnnAssign):
+                cs.append(self.classify(f, d.value, d, depth + 1) if d.value is not None else ("unknown", "annotation only"))
+            elif isinstance(d, ast.AugAssign):
+                cs.append(self.classify_name(f, name, d, depth + 1) if False else ("owned",) if isinstance(d.op, ast.Add) and False
+                          else ("same",))
+            elif isinstance(d, (ast.For, ast.AsyncFor)):
+                it = self.classify(f, d.iter, d, depth + 1)
+                cs.append(("owned",) if it[0] == "owned" and self._owned_deep(f, d.iter, d) else ("elem", it))
+            else:
+                cs.append(("unknown", type(d).__name__))
+        had_same = any(self._root(c) == ("same",) for c in cs)
+        cs = [c for c in cs if self._root(c) != ("same",)]
+        if is_param and not cs:
+            return ("param", name)
+        if not cs and had_same:
+            return ("same",)
+        return self._join(cs) if cs else ("unknown", name)
+
+    def _owned_deep(self, f: FuncInfo, e: ast.AST, at: ast.AST) -> bool:
+        return False
+
+    def classify_call_position(self, f: FuncInfo, value: ast.AST, pos: int, at: ast.AST, depth: int) -> Optional[tuple]:
+        ctx = self.ctx
+        v = value.value if isinstance(value, ast.Await) else value
+        if isinstance(v, ast.Tuple) and pos < len(v.elts):
+            return self.classify(f, v.elts[pos], at, depth)
+        if not isinstance(v, ast.Call):
+            return None
+        q = ctx.T.resolve_callee(f, v, ctx.env_at(f, v))
+        if q not in ctx.P.funcs:
+            return None
+        callee = ctx.P.funcs[q]
+        rp = self.ret_positions(callee)
+        if rp is None or pos >= len(rp):
+            return None
+        rc = rp[pos]
+        if rc[0] == "param":
+            is_m = callee.cls is not None and isinstance(v.func, ast.Attribute)
+            if is_m and rc[1] == self.params(callee)[0]:
+                return self.classify(f, v.func.value, at, depth)
+            a = arg_for_param(callee.node, v, rc[1], skip_self=is_m)
+            return self.classify(f, a, at, depth) if a is not None else ("unknown", f"argument for {rc[1]}")
+        if rc[0] == "selffield" and isinstance(v.func, ast.Attribute):
+            return self._field_class(f, v.func.value, rc[1], at, depth)
+        if rc[0] == "forward":
+            # the callee returns the result of another call unchanged (e.g. asyncio.run(coroutine(...)))
+            return self.classify_call_position(callee, rc[1], pos, rc[2], depth + 1) if depth < 6 else None
+        return rc
+
+    def ret_positions(self, f: FuncInfo) -> Optional[List[tuple]]:
+        """Per-position alias classes when every return of f is a tuple display of one length (or forwards such a call)."""
+        if f.qualname in self._ret_pos:
+            return self._ret_pos[f.qualname]
+        self._ret_pos[f.qualname] = None
+        rets = [n for n in iter_own_nodes(f.node) if isinstance(n, ast.Return) and n.value is not None]
+        out: Optional[List[tuple]] = None
+        if rets and all(isinstance(r_.value, ast.Tuple) for r_ in rets) and len({len(r_.value.elts) for r_ in rets}) == 1:
+            n = len(rets[0].value.elts)
+            out = []
+            for i in range(n):
+                cs = []
+                for r_ in rets:
+                    x = r_.value.elts[i]
+                    c = self.classify(f, x, r_)
+                    if isinstance(x, ast.Attribute) and f.cls is not None and dotted(x.value) == (self.params(f) or [None])[0] \
+                            and c[0] in ("shared", "execfield", "elem", "param"):
+                        c = ("selffield", x.attr)
+                    cs.append(self._root(c) if c[0] == "elem" else c)
+                out.append(self._join(cs))
+        elif len(rets) == 1:
+            v = rets[0].value
+            inner = v.value if isinstance(v, ast.Await) else v
+            # asyncio.run(g(...)) / await g(...) / g(...)
+            if isinstance(inner, ast.Call) and (dotted(inner.func) or "").endswith("asyncio.run") and inner.args:
+                inner = inner.args[0]
+            if isinstance(inner, ast.Call):
+                q = self.ctx.T.resolve_callee(f, inner, self.ctx.env_at(f, inner))
+                if q in self.ctx.P.funcs:
+                    rp = self.ret_positions(self.ctx.P.funcs[q])
+                    if rp is not None:
+                        callee = self.ctx.P.funcs[q]
+                        out = []
+                        for rc in rp:
+                            if rc[0] == "param":
+                                a = arg_for_param(callee.node, inner, rc[1], skip_self=callee.cls is not None and isinstance(inner.func, ast.Attribute))
+                                out.append(self.classify(f, a, rets[0]) if a is not None else ("unknown", "fwd"))
+                            else:
+                                out.append(rc)
+        self._ret_pos[f.qualname] = out
+        return out
+
+    def _join(self, cs: List[tuple]) -> tuple:
+        cs = [c for c in cs if c is not None]
+        if not cs:
+            return ("unknown", "empty")
+        order = ["global", "shared", "execfield", "param", "elem", "unknown", "owned"]
+        cs.sort(key=lambda c: order.index(c[0]) if c[0] in order else 5)
+        return cs[0]
+
+    # ------------------------------------------------------------------ summaries
+    def ret_class(self, f: FuncInfo) -> tuple:
+        """Alias class of the value a function returns, expressed in its own terms (param names / self fields)."""
+        if f.qualname in self._ret:
+            return self._ret[f.qualname]
+        if f.qualname in self._stack:
+            return ("owned",)
+        self._stack.append(f.qualname)
+        self._ret[f.qualname] = ("owned",)
+        cs = []
+        for n in iter_own_nodes(f.node):
+            if isinstance(n, ast.Return) and n.value is not None:
+                v = n.value
+                elts = v.elts if isinstance(v, ast.Tuple) else [v]
+                for x in elts:
+                    c = self.classify(f, x, n)
+                    if isinstance(x, ast.Attribute) and dotted(x.value) == (self.params(f) or [None])[0] and f.cls is not None \
+                            and c[0] in ("shared", "execfield", "elem", "param"):
+                        c = ("selffield", x.attr)
+                    cs.append(c)
+        self._stack.pop()
+        res = ("owned",)
+        for c in cs:
+            if c[0] in ("param", "selffield", "shared", "global", "execfield"):
+                res = c
+                break
+        self._ret[f.qualname] = res
+        return res
+
+    def mutations(self, f: FuncInfo) -> List[dict]:
+        """Direct mutation sites of f: {node, target expr, how}."""
+        out = []
+        for n in iter_own_nodes(f.node):
+            if id(n) in self.splice_nodes:
+                continue
+            if isinstance(n, (ast.Assign, ast.AugAssign, ast.AnnAssign)):
+                tgs = n.targets if isinstance(n, ast.Assign) else [n.target]
+                flat = []
+                for t in tgs:
+                    flat += list(t.elts) if isinstance(t, (ast.Tuple, ast.List)) else [t]
+                for t in flat:
+                    if isinstance(t, ast.Subscript):
+                        out.append({"node": n, "target": t.value, "how": "item write", "stmt": n})
+                    elif isinstance(t, ast.Attribute):
+                        out.append({"node": n, "target": t.value, "how": f"attribute write .{t.attr}", "stmt": n, "attr": t.attr})
+                    elif isinstance(t, ast.Name) and isinstance(n, ast.AugAssign) and isinstance(n.op, (ast.BitOr, ast.BitAnd, ast.Sub, ast.Add, ast.BitXor)):
+                        ty = self.ctx.type_of(f, t)
+                        if ty[0] in ("set", "list", "dict"):
+                            out.append({"node": n, "target": t, "how": "in-place operator", "stmt": n})
+            elif isinstance(n, ast.Delete):
+                for t in n.targets:
+                    if isinstance(t, (ast.Subscript, ast.Attribute)):
+                        out.append({"node": n, "target": t.value, "how": "del", "stmt": n})
+            elif isinstance(n, ast.Call):
+                fn = n.func
+                if isinstance(fn, ast.Attribute) and fn.attr in MUTATORS:
+                    q = self.ctx.T.resolve_callee(f, n, self.ctx.env_at(f, n))
+                    if q in self.ctx.P.funcs:
+                        continue  # a package method: handled through its summary
+                    rt = self.ctx.type_of(f, fn.value)
+                    if rt[0] in ("str",):
+                        continue
+                    out.append({"node": n, "target": fn.value, "how": f".{fn.attr}()", "stmt": n})
+                elif dotted(fn) in ("object.__setattr__", "setattr") and len(n.args) >= 2:
+                    out.append({"node": n, "target": n.args[0], "how": "setattr", "stmt": n})
+            elif isinstance(n, ast.Global):
+                out.append({"node": n, "target": None, "how": "global statement", "stmt": n, "names": n.names})
+        return out
+
+    def mutated_params(self, f: FuncInfo) -> Dict[str, List[dict]]:
+        """param name -> evidence list; a param is mutated directly or by being passed to a callee that mutates it."""
+        if f.qualname in self._mp:
+            return self._mp[f.qualname]
+        self._mp[f.qualname] = {}
+        res: Dict[str, List[dict]] = {}
+        for m in self.mutations(f):
+            if m["target"] is None:
+                continue
+            c = self.classify(f, m["target"], m["stmt"])
+            root = self._root(c)
+            if root[0] == "param":
+                res.setdefault(root[1], []).append({"in": f.short, "site": norm_src(m["stmt"]), "where": f.loc(m["node"])})
+        for call, q, info in self.callees(f):
+            callee = self.ctx.P.funcs[q]
+            cm = self.mutated_params(callee)
+            if not cm:
+                continue
+            for pn, ev in cm.items():
+                a = self._actual(f, call, callee, pn, info)
+                if a is None:
+                    continue
+                c = self.classify(f, a, call if isinstance(call, ast.stmt) else self._stmt_of(f, call))
+                root = self._root(c)
+                if root[0] == "param":
+                    res.setdefault(root[1], []).append({"in": f.short, "site": norm_src(call)[:120], "via": callee.short,
+                                                        "where": f.loc(call)})
+        self._mp[f.qualname] = res
+        return res
+
+    def _stmt_of(self, f: FuncInfo, node: ast.AST) -> ast.AST:
+        return node
+
+    def _root(self, c: tuple) -> tuple:
+        while c[0] == "elem":
+            c = c[1]
+        return c
+
+    def _actual(self, f: FuncInfo, call: ast.AST, callee: FuncInfo, pn: str, info: dict) -> Optional[ast.AST]:
+        ps = self.params(callee)
+        is_method = callee.cls is not None and "staticmethod" not in callee.decorators()
+        if info["kind"] == "property":
+            return call.value if is_method and ps and pn == ps[0] else None  # type: ignore[attr-defined]
+        if info["kind"] == "with":
+            return info["recv"] if is_method and ps and pn == ps[0] else None
+        if info["kind"] == "ctor":
+            return None
+        if info["kind"] == "bound":
+            ref = info["ref"]
+            if is_method and ps and pn == ps[0]:
+                return ref.value
+            # arguments given to the submitting call by keyword are forwarded to the bound method
+            for k in call.keywords:  # type: ignore[attr-defined]
+                if k.arg == pn:
+                    return k.value
+            return None
+        if is_method and ps and pn == ps[0]:
+            fn = call.func  # type: ignore[attr-defined]
+            return fn.value if isinstance(fn, ast.Attribute) else None
+        return arg_for_param(callee.node, call, pn, skip_self=is_method and isinstance(call.func, ast.Attribute))  # type: ignore[arg-type]
+
+
+def ctx_stmt_id(ctx: Ctx, f: FuncInfo, at: ast.AST):
+    n = ctx.stmt_containing(f, at)
+    return n if n is not None else id(at)
+
+
+def own(ctx: Ctx) -> Own:
+    return ctx.memo("own_engine", lambda: Own(ctx))
+
+
+# ---------------------------------------------------------------------------------------------- licences
+def _writeback_sites(ctx: Ctx):
+    """Element writes into self.results inside run_subgraph of the DAG classes, with their guard."""
+    out = []
+    for cn in DAG_CLASSES[1:]:
+        f = ctx.own_method(cn, "run_subgraph")
+        if f is None:
+            continue
+        chains = _if_chains(f.node)
+        for n in iter_own_nodes(f.node):
+            if isinstance(n, ast.Assign) and isinstance(n.targets[0], ast.Subscript) and norm_src(n.targets[0].value) == "self.results":
+                out.append((f, n, chains.get(id(n), ())))
+    return out
+
+
+def _guard_is_setup_once(test_chain) -> Tuple[bool, str]:
+    srcs = [norm_src(t) for t, v in test_chain if v]
+    flat = " and ".join(srcs)
+    parts = []
+    for t, v in test_chain:
+        if not v:
+            return False, flat
+        parts += [norm_src(x) for x in (t.values if isinstance(t, ast.BoolOp) and isinstance(t.op, ast.And) else [t])]
+    ok = len(parts) == 2 and any(p.endswith(".setup") for p in parts) and any(
+        p.startswith("not ") and p.endswith(".executed(self.results)") for p in parts)
+    alt = len(parts) == 2 and any(p.endswith(".setup") for p in parts) and any(" not in self.results" in p for p in parts)
+    return ok or alt, " and ".join(parts)
+
+
+def own_writeback(ctx: Ctx) -> RuleResult:
+    r = RuleResult("OWN-WRITEBACK")
+    sites = _writeback_sites(ctx)
+    r.require(len(sites) >= 2, f"setup write-back sites: found {len(sites)} (expected one per DAG flavour)")
+    for f, n, ch in sites:
+        ok, shown = _guard_is_setup_once(ch)
+        r.ob(ok, {"write-back": norm_src(n), "in": f.short, "guard": shown})
+        if not ok:
+            r.violate(f"{f.short}: write into the DAG's results guarded by '{shown}'", f.loc(n),
+                      "the only element write into a DAG's results on a run path must be guarded by 'the node is a setup node and "
+                      "its result is not already recorded': a weaker guard leaks per-call values into later calls, a stronger one "
+                      "makes a setup node run again", shown)
+        # the written key/value come from the results of this execution
+        loop = [x for x in iter_own_nodes(f.node) if isinstance(x, ast.For) and any(n is y for y in ast.walk(x))]
+        okl = len(loop) == 1 and norm_src(loop[0].iter).endswith(".items()")
+        r.ob(okl, {"iterates": norm_src(loop[0].iter) if loop else None})
+    # any other write to a DAG's results in the DAG classes (outside the splice / build paths) is a violation of the licence
+    o = own(ctx)
+    for f in o.reachable():
+        if f.cls is None or f.cls.qualname not in o.dag_qs:
+            continue
+        for m in o.mutations(f):
+            if m["target"] is not None and norm_src(m["target"]) == "self.results" and not any(m["stmt"] is s[1] for s in sites):
+                r.ob(False)
+                r.violate(f"{f.short}: unlicensed mutation of the DAG's results: {norm_src(m['stmt'])[:80]}", f.loc(m["node"]),
+                          "a DAG instance may only ever gain setup results", norm_src(m["stmt"]))
+    return r
+
+
+def own_setup(ctx: Ctx) -> RuleResult:
+    """The only re-binding of a DAG's results on a run path is setup(), from an execution of the setup-only graph."""
+    r = RuleResult("OWN-SETUP")
+    o = own(ctx)
+    n_rebind = 0
+    for f in o.reachable():
+        if f.cls is None or f.cls.qualname not in o.dag_qs:
+            continue
+        for n in iter_own_nodes(f.node):
+            if id(n) in o.splice_nodes:
+                continue
+            if isinstance(n, ast.Assign):
+                flat = []
+                for t in n.targets:
+                    flat += list(t.elts) if isinstance(t, ast.Tuple) else [t]
+                if any(norm_src(t) == "self.results" for t in flat):
+                    n_rebind += 1
+                    v = n.value.value if isinstance(n.value, ast.Await) else n.value
+                    is_sched = isinstance(v, ast.Call) and (dotted(v.func) or "").split(".")[-1] in ("sync_execute", "async_execute")
+                    g = next((k.value for k in v.keywords if k.arg == "graph"), None) if is_sched else None
+                    origin = None
+                    if g is not None:
+                        from .gt import _graph_origin
+
+                        origin = _graph_origin(ctx, f, g)
+                    ok = is_sched and origin == "setup-only" and f.name == "setup"
+                    r.ob(ok, {"re-binding": norm_src(n)[:100], "in": f.short, "graph origin": origin})
+                    if not ok:
+                        r.violate(f"{f.short}: the DAG's results are re-bound outside setup() on a setup-only graph", f.loc(n),
+                                  "results of non-setup nodes would persist in the DAG instance and be pruned from later calls",
+                                  norm_src(n))
+    r.require(n_rebind >= 2, f"re-bindings of the DAG's results found: {n_rebind} (expected setup() of both flavours)")
+    # the setup-only filter
+    from .gt import _pre_setup_filters
+
+    okf = _pre_setup_filters(ctx)
+    r.ob(okf, {"_pre_setup keeps only setup nodes": okf})
+    if not okf:
+        ps = ctx.method("BaseDAG", "_pre_setup")
+        r.violate("BaseDAG._pre_setup: non-setup nodes are not removed from the graph given to setup()", ps.loc(),
+                  "setup() would execute ordinary nodes and store their results in the DAG instance", None)
+    return r
+
+
+# ---------------------------------------------------------------------------------------------- OWN-RUN
+def own_run(ctx: Ctx) -> RuleResult:
+    r = RuleResult("OWN-RUN")
+    o = own(ctx)
+    fs = o.reachable()
+    r.require(len(fs) >= 25, f"only {len(fs)} functions reachable from the run entry points")
+    licensed = {id(n) for _, n, _ in _writeback_sites(ctx)}
+    unknown = []
+    n_mut = 0
+    for f in fs:
+        for m in o.mutations(f):
+            if m["how"] == "global statement":
+                continue
+            n_mut += 1
+            c = o.classify(f, m["target"], m["stmt"])
+            root = o._root(c)
+            inst = {"in": f.short, "site": norm_src(m["stmt"])[:100], "how": m["how"], "class": root[0] + (":" + str(root[1]) if len(root) > 1 else "")}
+            if root[0] == "owned":
+                r.ob(True, inst)
+            elif root[0] == "param":
+                r.ob(True, dict(inst, note="obligation moves to the callers"))
+            elif root[0] == "execfield":
+                # executors are disposable, but their graph must survive a failed run
+                ok = c[0] == "execfield" and m["how"].startswith("attribute write") or m["how"].startswith("attribute write")
+                r.ob(True, inst)
+            elif root[0] == "shared":
+                if id(m["stmt"]) in licensed:
+                    r.ob(True, dict(inst, note="licensed: OWN-WRITEBACK"))
+                elif m["how"].startswith("attribute write") and m.get("attr") == "results" and f.name == "setup":
+                    r.ob(True, dict(inst, note="licensed: OWN-SETUP"))
+                else:
+                    r.ob(False, inst)
+                    r.violate(f"{f.short}: mutates shared DAG state ({root[1]}): {norm_src(m['stmt'])[:80]}", f.loc(m["node"]),
+                              "a function on a run path mutates an object that belongs to the DAG instance: the next call (or a "
+                              "concurrent one) observes this call's data", norm_src(m["stmt"]))
+            elif root[0] == "global":
+                r.ob(False, inst)
+                r.violate(f"{f.short}: mutates module-level state {root[1]}", f.loc(m["node"]),
+                          "run paths must not touch module-level mutable state", norm_src(m["stmt"]))
+            else:
+                unknown.append((f, m, c))
+    # obligations at call sites: arguments for mutated parameters
+    n_obl = 0
+    for f in fs:
+        for call, q, info in o.callees(f):
+            callee = ctx.P.funcs[q]
+            for pn, ev in o.mutated_params(callee).items():
+                a = o._actual(f, call, callee, pn, info)
+                if a is None:
+                    continue
+                c = o.classify(f, a, call)
+                root = o._root(c)
+                n_obl += 1
+                inst = {"call": norm_src(call)[:90], "in": f.short, "mutated parameter": f"{callee.short}({pn})",
+                        "argument": norm_src(a), "class": root[0]}
+                if root[0] in ("owned", "param"):
+                    r.ob(True, inst)
+                elif root[0] == "execfield":
+                    is_graph = ctx.T.is_instance(ctx.type_of(f, a), ctx.cls_q("DiGraphEx"), maybe=False)
+                    if is_graph:
+                        continue  # judged by OWN-CONSUME
+                    r.ob(True, inst)
+                elif root[0] in ("shared", "global"):
+                    r.ob(False, inst)
+                    r.violate(f"{f.short}: passes shared state '{norm_src(a)}' to {callee.short}, which mutates its parameter '{pn}'",
+                              f.loc(call), "the callee writes into an object that belongs to the DAG instance / module: state leaks "
+                              "between calls; first mutation: " + ev[0]["site"] + " @ " + ev[0]["where"], ev[:3])
+                else:
+                    unknown.append((f, {"stmt": call, "node": call, "how": "argument"}, c))
+    for f, m, c in unknown:
+        r.ob(False, {"unclassified": norm_src(m["stmt"])[:100], "in": f.short, "why": str(c)})
+    if unknown:
+        f, m, c = unknown[0]
+        raise Undecided(f"{len(unknown)} mutation target(s) could not be classified, first: {f.loc(m['node'])} "
+                        f"{norm_src(m['stmt'])[:80]} -> {c}")
+    r.note = f"{len(fs)} run-reachable functions, {n_mut} mutation sites, {n_obl} caller obligations"
+    return r
+
+
+def own_consume(ctx: Ctx) -> RuleResult:
+    """The graph the scheduler consumes is fresh per call at every entry."""
+    r = RuleResult("OWN-CONSUME")
+    o = own(ctx)
+    GQ = ctx.cls_q("DiGraphEx")
+    n = 0
+    for f in o.reachable():
+        for call, q, info in o.callees(f):
+            callee = ctx.P.funcs[q]
+            for pn, ev in o.mutated_params(callee).items():
+                t = ctx.T.env(callee).get(pn, ("any",))
+                if not ctx.T.is_instance(t, GQ, maybe=False) or pn == "self":
+                    continue
+                a = o._actual(f, call, callee, pn, info)
+                if a is None:
+                    continue
+                n += 1
+                c = o.classify(f, a, call)
+                root = o._root(c)
+                shallow = isinstance(a, ast.Call) and (dotted(a.func) in ("copy", "copy.copy") or
+                                                       (isinstance(a.func, ast.Attribute) and a.func.attr == "copy" and not a.args and
+                                                        dotted(a.func.value) not in (None,) and False))
+                inst = {"call": norm_src(call)[:100], "in": f.short, "consumed parameter": f"{callee.short}({pn})",
+                        "argument": norm_src(a), "class": root[0], "shallow copy": shallow}
+                ok = root[0] in ("owned", "param") and not shallow
+                r.ob(ok, inst)
+                if shallow:
+                    r.violate(f"{f.short}: the consumed graph is a shallow copy: {norm_src(a)}", f.loc(call),
+                              "copy.copy of a networkx graph shares the adjacency dictionaries: the scheduler removes nodes from the "
+                              "original as well, so a retried executor runs only what a failed run left over", norm_src(a))
+                elif not ok:
+                    r.violate(f"{f.short}: hands its own graph '{norm_src(a)}' to {callee.short}, which consumes it", f.loc(call),
+                              "the scheduler removes every finished node from the graph it is given; after a failed run the object "
+                              "keeps a partially consumed graph and a second run silently executes the remainder only", ev[:2])
+    r.require(n >= 4, f"only {n} hand-overs of a graph to a consuming callee found")
+    return r
+
+
+def own_args(ctx: Ctx) -> RuleResult:
+    """Call arguments are force-written only into a copy made in the same function."""
+    r = RuleResult("OWN-ARGS")
+    o = own(ctx)
+    sites = []
+    for f in o.reachable():
+        for n in iter_own_nodes(f.node):
+            if isinstance(n, ast.Call) and isinstance(n.func, ast.Attribute) and n.func.attr == "force_set":
+                sites.append((f, n))
+    r.require(len(sites) >= 1, "no force_set on a run path found")
+    for f, n in sites:
+        c = o.classify(f, n.func.value, n)
+        root = o._root(c)
+        ok = root[0] == "owned"
+        r.ob(ok, {"force write": norm_src(n), "in": f.short, "target class": root[0]})
+        if not ok:
+            r.violate(f"{f.short}: arguments/cached values are force-written into '{norm_src(n.func.value)}' which is not a copy made here",
+                      f.loc(n), "the defaults and constants of the DAG instance are overwritten for every later call", str(c))
+    return r
+
+
+def own_global(ctx: Ctx) -> RuleResult:
+    r = RuleResult("OWN-GLOBAL")
+    o = own(ctx)
+    fs = o.reachable()
+
+    def hits(funcs):
+        for f in funcs:
+            for m in o.mutations(f):
+                if m["how"] == "global statement":
+                    yield f, m, ("global", ",".join(m["names"]))
+                    continue
+                c = o._root(o.classify(f, m["target"], m["stmt"]))
+                if c[0] == "global":
+                    yield f, m, c
+            for n in iter_own_nodes(f.node):
+                if id(n) in o.splice_nodes:
+                    continue
+                if isinstance(n, ast.Assign):
+                    for t in n.targets:
+                        if isinstance(t, ast.Attribute) and ctx.type_of(f, t.value)[0] == "module":
+                            yield f, {"node": n, "stmt": n, "how": "module attribute write"}, ("global", dotted(t))
+
+    bad = list(hits(fs))
+    for f in fs:
+        mine = [b for b in bad if b[0] is f]
+        r.ob(not mine, {"function": f.short, "module-level writes": len(mine)})
+    for f, m, c in bad:
+        r.violate(f"{f.short}: writes module-level state {c[1]}", f.loc(m["node"]),
+                  "functions reachable from a DAG call / executor / setup must not write module-level state: concurrent runs and "
+                  "builds would interfere", norm_src(m["stmt"])[:100])
+    cf = control_funcs(ctx)
+    if cf:
+        r.require(len(list(hits(cf))) >= 1, "positive control for OWN-GLOBAL did not match")
+    return r
+
+
+def own_strict(ctx: Ctx) -> RuleResult:
+    r = RuleResult("OWN-STRICT")
+    c = ctx.P.classes[ctx.cls_q("StrictDict")]
+    si = c.methods.get("__setitem__")
+    r.require(si is not None, "StrictDict.__setitem__ not found")
+    k = si.node.args.args[1].arg
+    ifs = [n for n in si.node.body if isinstance(n, ast.If) and any(isinstance(b, ast.Raise) for b in n.body)]
+    ok = len(ifs) == 1 and norm_src(ifs[0].test) == f"{k} in self"
+    r.ob(ok, {"write-once": norm_src(ifs[0].test) if ifs else None})
+    if not ifs:
+        r.violate("StrictDict.__setitem__: an occupied key is silently overwritten", si.loc(),
+                  "the results map is no longer write-once: a node executed twice goes unnoticed", None)
+    elif not ok:
+        raise Undecided("StrictDict.__setitem__: guard not recognised")
+    # no other overriding writer
+    for name in ("update", "setdefault", "__ior__"):
+        r.ob(name not in c.methods, {f"StrictDict.{name} not overridden": name not in c.methods})
+    return r
+
+
+def own_force(ctx: Ctx) -> RuleResult:
+    """force_set (the write-once bypass) is not reachable from the scheduler."""
+    from .sch import model
+
+    r = RuleResult("OWN-FORCE")
+    m = model(ctx)
+    o = own(ctx)
+    roots = [m.fn] + [h.fn for h in m.helpers.values()] + [ctx.method("ExecNode", "execute")]
+    seen: Dict[str, FuncInfo] = {}
+    st = list(roots)
+    while st:
+        f = st.pop()
+        if f.qualname in seen:
+            continue
+        seen[f.qualname] = f
+        for _, q, _ in o.callees(f):
+            st.append(ctx.P.funcs[q])
+    n_sites = 0
+    for f in pkg_funcs(ctx):
+        for n in iter_own_nodes(f.node):
+            if isinstance(n, ast.Call) and isinstance(n.func, ast.Attribute) and n.func.attr == "force_set":
+                n_sites += 1
+                bad = f.qualname in seen
+                r.ob(not bad, {"force_set in": f.short, "reachable from the scheduler": bad})
+                if bad:
+                    r.violate(f"{f.short}: force_set inside the scheduler's extent", f.loc(n),
+                              "results written during an execution must be write-once (a second write must raise)", norm_src(n))
+    r.require(n_sites >= 2, f"force_set call sites: {n_sites}")
+    return r
+
+
+def own_compose(ctx: Ctx) -> RuleResult:
+    r = RuleResult("OWN-COMPOSE")
+    f = ctx.method("BaseDAG", "compose")
+    # the node table of the composed DAG: deep copies / fresh nodes only
+    xd = [n for n in iter_own_nodes(f.node) if isinstance(n, ast.Assign) and isinstance(n.value, ast.Call)
+          and dotted(n.value.func) == "StrictDict" and any("exec_nodes" in norm_src(x) for x in ast.walk(n.value))]
+    r.require(len(xd) == 1, "compose: construction of the copied node table not found")
+    tbl = dotted(xd[0].targets[0])
+    gen = xd[0].value.args[0]
+    val = gen.elt.elts[1] if isinstance(gen, ast.GeneratorExp) and isinstance(gen.elt, ast.Tuple) else None
+    okd = isinstance(val, ast.Call) and dotted(val.func) == "deepcopy"
+    r.ob(okd, {"copied nodes": norm_src(val) if val is not None else None})
+    if not okd:
+        r.violate("BaseDAG.compose: nodes of the original DAG are shared with (not deep-copied into) the composed DAG", f.loc(xd[0]),
+                  "the in-place rewiring of references then edits the original DAG's nodes: composing changes the original's behaviour",
+                  norm_src(xd[0]))
+    # in-place edits target nodes taken from that table only
+    edits = 0
+    for n in iter_own_nodes(f.node):
+        tgt = None
+        if isinstance(n, ast.Assign) and isinstance(n.targets[0], ast.Subscript) and isinstance(n.targets[0].value, ast.Attribute):
+            tgt = n.targets[0].value.value
+        elif isinstance(n, ast.Call) and dotted(n.func) == "object.__setattr__":
+            tgt = n.args[0]
+        if tgt is not None and isinstance(tgt, ast.Name):
+            loops = [l for l in iter_own_nodes(f.node) if isinstance(l, ast.For) and dotted(l.target) == tgt.id and any(n is x for x in ast.walk(l))]
+            if loops:
+                edits += 1
+                ok = norm_src(loops[-1].iter) == f"{tbl}.values()"
+                r.ob(ok, {"in-place edit": norm_src(n)[:80], "node taken from": norm_src(loops[-1].iter)})
+                if not ok:
+                    r.violate(f"BaseDAG.compose: in-place edit of a node taken from {norm_src(loops[-1].iter)}", f.loc(n),
+                              "only the copies owned by the composed DAG may be edited", norm_src(n))
+    r.require(edits >= 3, f"compose: only {edits} in-place edits found")
+    # results / exec_nodes handed to the new DAG are built here
+    for n in iter_own_nodes(f.node):
+        if isinstance(n, ast.Call) and dotted(n.func) in ("DAG", "AsyncDAG"):
+            for k in n.keywords:
+                if k.arg in ("results", "exec_nodes"):
+                    ok = isinstance(k.value, ast.Name)
+                    r.ob(ok, {f"{dotted(n.func)}({k.arg}=)": norm_src(k.value)})
+                    if not ok:
+                        r.violate(f"BaseDAG.compose: the composed DAG shares {norm_src(k.value)} with the original", f.loc(n),
+                                  "setup results / nodes written by one DAG would appear in the other", norm_src(k.value))
+    res = [n for n in iter_own_nodes(f.node) if isinstance(n, ast.Assign) and dotted(n.targets[0]) == "results"]
+    okr = len(res) == 1 and isinstance(res[0].value, ast.Call) and dotted(res[0].value.func) == "StrictDict"
+    r.ob(okr, {"new results map": norm_src(res[0].value)[:80] if res else None})
+    if res and not okr:
+        r.violate("BaseDAG.compose: the results map of the composed DAG is not a new map", f.loc(res[0]), "", norm_src(res[0]))
+    return r
+
+
+def own_deepcopy(ctx: Ctx) -> RuleResult:
+    r = RuleResult("OWN-DEEPCOPY")
+    for cn in DAG_CLASSES:
+        c = ctx.P.classes[ctx.cls_q(cn)]
+        bad = [m for m in ("__copy__", "__deepcopy__", "__reduce__", "__reduce_ex__", "__getstate__", "__setstate__") if m in c.methods]
+        r.ob(not bad, {"class": cn, "copy protocol overrides": bad})
+        for m in bad:
+            r.violate(f"{cn}.{m}: custom copy protocol", c.methods[m].loc(),
+                      "deep copies of a DAG must have independent setup state; a custom copy hook can share the results map", None)
+    return r
+
+
+def own_schedcopy(ctx: Ctx) -> RuleResult:
+    """The scheduler works on its own copy of the results and of the non-setup nodes."""
+    from .sch import model
+
+    r = RuleResult("OWN-SCHEDCOPY")
+    m = model(ctx)
+    o = own(ctx)
+    f = m.fn
+    res_names = {kw.get("results") for kw in m.exec_kwargs}
+    r.require(len(res_names) == 1, "results object passed to execute not unique")
+    rn = next(iter(res_names))
+    site = m.sites[0]
+    c = o._root(o.classify(f, ast.Name(id=rn, ctx=ast.Load()), site))
+    ok = c[0] == "owned"
+    r.ob(ok, {"results handed to the nodes": rn, "class": c[0]})
+    if not ok:
+        r.violate(f"{f.short}: nodes write their results into the caller's map", f.loc(site),
+                  "the scheduler must copy the results it is given: otherwise setup()/calls write every node's result into the "
+                  "DAG instance", str(c))
+    c2 = o._root(o.classify(f, ast.Name(id=m.node_table, ctx=ast.Load()), m.xn_assign))
+    r.ob(c2[0] == "owned", {"node table": m.node_table, "class": c2[0]})
+    return r
+
+
+RULES = {
+    "OWN-RUN": own_run, "OWN-WRITEBACK": own_writeback, "OWN-SETUP": own_setup, "OWN-CONSUME": own_consume, "OWN-ARGS": own_args,
+    "OWN-GLOBAL": own_global, "OWN-STRICT": own_strict, "OWN-FORCE": own_force, "OWN-COMPOSE": own_compose,
+    "OWN-DEEPCOPY": own_deepcopy, "OWN-SCHEDCOPY": own_schedcopy,
+}
